@@ -14,7 +14,7 @@ from vlib.api import Custom, HarnessError, Outcome, innermost_site
 ID = "C20"
 LEVEL = "fault_enumeration"
 RULE = ("case = (call kind, input, fault point). Call kinds: read(str path), read(pathlib.Path), write(path), "
-        "to_csv(path), write(file object), to_csv(file object). Inputs: LAS files rendered from a FileSpec family "
+        "to_csv(path), write/to_csv(path given as bytes), write(file object), to_csv(file object). Inputs: LAS files rendered from a FileSpec family "
         "(curves x rows x wrapped x UTF-8 BOM x non-ASCII content x autodetect_encoding True/False/'chardet' x "
         "explicit encoding, normal/numpy engine, ~Other section, hyphen data, text column) plus seeded variations, and "
         "the failing classes: no '~' section, 'LASF' magic, junk header line, ragged data rows, undecodable bytes with "
@@ -52,7 +52,8 @@ def mkdtemp(prefix):
     return tempfile.mkdtemp(prefix=prefix, dir=TMPBASE)
 
 
-CALLS = ("read_str", "read_path", "write_path", "to_csv_path", "write_fileobj", "to_csv_fileobj")
+CALLS = ("read_str", "read_path", "write_path", "to_csv_path", "write_fileobj", "to_csv_fileobj",
+         "write_bytes_path", "to_csv_bytes_path")  # *_bytes_path: the file name given as bytes (basestring = (str, bytes))
 CAP = {"quick": 450, "thorough": 4000}  # largest N enumerated completely; inputs are built to stay below
 
 
@@ -226,7 +227,8 @@ def prepare(case, d):
     meth = las.write if call.startswith("write") else las.to_csv
     if call.endswith("_path"):
         pr.outpath = os.path.join(d, "out.txt")
-        pr.invoke = lambda tr: meth(pr.outpath, **kw)
+        target = os.fsencode(pr.outpath) if "bytes" in call else pr.outpath
+        pr.invoke = lambda tr: meth(target, **kw)
         return pr
     if case.get("sink", "file") == "file":
         pr.outpath = os.path.join(d, "out.txt")
@@ -650,11 +652,13 @@ def part_read(ctx):
 
 
 def part_write(ctx):
-    enumerate_pairs(ctx, write_pairs(ctx.tier, ctx.seed))
+    pairs = write_pairs(ctx.tier, ctx.seed)
+    enumerate_pairs(ctx, pairs + [dict(p, call="write_bytes_path") for p in pairs[::4]])
 
 
 def part_csv(ctx):
-    enumerate_pairs(ctx, csv_pairs(ctx.tier, ctx.seed))
+    pairs = csv_pairs(ctx.tier, ctx.seed)
+    enumerate_pairs(ctx, pairs + [dict(p, call="to_csv_bytes_path") for p in pairs[::4]])
 
 
 def part_fileobj(ctx):
